@@ -29,9 +29,15 @@ def gen_cases(rng, tier):
     for _ in range(reps):
         for wmode in ('ns', 'sb', 'nb'):
             for cls in ('restricted', 'gso', 'sso', 'diag', 'diag2', 'dc2', 'sparse'):
-                for ddim in (-1, 0, 1):
+                for ddim in (-1, 0, 1, 'half', 'double'):
                     for hcn in (True, False):
                         norb = rng.randint(2, 3)
+                        if ddim in ('half', 'double'):
+                            # a spin-orbital tensor whose dimension equals norb (built for norb/2 orbitals), a spatial one of
+                            # dimension 2*norb: the sizes at which re-wrapping bare tensors by shape goes wrong
+                            if cls not in ('restricted', 'gso', 'sso') or not hcn:
+                                continue
+                            norb = 2
                         if wmode == 'ns':
                             na, nb = rng.randint(0, norb), rng.randint(0, norb)
                             nn, sz = na + nb, na - nb
@@ -39,10 +45,13 @@ def gen_cases(rng, tier):
                             nn, sz = rng.randint(0, 2 * norb), 0
                         else:
                             nn, sz = 0, rng.randint(-norb + 1, norb - 1)
-                        hnorb = norb + ddim
+                        hnorb = norb // 2 if ddim == 'half' else (2 * norb if ddim == 'double' else norb + ddim)
                         if hnorb < 1:
                             continue
-                        ham = c01.gen_ham(rng, cls, 1 if cls not in ('dc2',) else 2, hnorb, 'dense', False, True)
+                        hrank = 2 if cls == 'dc2' else (rng.choice([1, 2]) if cls in ('restricted', 'gso', 'sso') else 1)
+                        ham = c01.gen_ham(rng, cls, hrank, hnorb, 'dense' if hrank == 1 else 'sparse', False, True)
+                        if hrank == 2 and cls in ('gso', 'sso'):
+                            ham['entries'] = c01.pair_symmetrise(ham['entries'])
                         if cls == 'sso':
                             ham['entries'] = c01._sso_filter(ham['entries'], hnorb)
                         if cls == 'sparse':
@@ -50,7 +59,7 @@ def gen_cases(rng, tier):
                         keys = fqeio.sector_keys(norb, wmode, nn, sz)
                         cases.append({'kind': 'apply', 'norb': norb, 'hnorb': hnorb, 'mode': wmode, 'n': nn, 'sz': sz,
                                       'vec': fqeio.random_state(rng, norb, keys, density=0.7), 'ham': ham, 'hcn': hcn,
-                                      'evolve': rng.random() < 0.4})
+                                      'evolve': rng.random() < (0.4 if ddim not in ('half', 'double') else 0.7)})
     # ---- C. RDM patterns
     pats = ['i^ j', 'i j^', 'i^ j^ k l', 'i^ k j^ l', 'i^ j^ k', 'i^ i', 'i^ j^ k^ l m n', 'i^ j k^ l', 'I^ j', 'i^^ j',
             'i^ 1', '0^ 1', '0^ 1^ 2', '0^ x', 'i^ j^ k^ l^ m n o p', 'a^ b^ c^ d^ e^ f g h i j', '', 'i j', 'i^ j^',
@@ -95,6 +104,11 @@ def gen_cases(rng, tier):
                             q = rng.randrange(2 * norb - 1)
                             terms.append([[[q, 1], [q, 0]], rng.randint(1, 3), 0])
                         cases.append({'kind': 'label', 'norb': norb, 'L': L, 'terms': terms, 'entry': entry, 'mode': wmode})
+    # ---- I. operands with overlapping but different sector sets (delegated to the C08 module's cases)
+    from props import c08
+    for c in c08.gen_cases(rng, 'quick'):
+        if c['kind'] == 'mismatch_sets':
+            cases.append({'kind': 'sets', 'inner': c})
     # ---- G. non-Hermitian single-term generators
     for ops, c in (([[0, 1], [2, 0]], [1, 0]), ([[0, 1], [2, 0]], [0, 1]), ([[0, 1], [0, 0]], [0, 1]), ([[0, 1], [0, 0]], [2, 0])):
         for two in (False, True):
@@ -210,6 +224,9 @@ def run_impl(case, mode):
         st['unchanged'] = _snap(w) == before
         st['nsec'] = len(keys)
         return st
+    if k == 'sets':
+        from props import c08
+        return c08.run_impl(case['inner'], mode)
     if k == 'label':
         norb = case['norb']
         w = fqeio.make_wfn(norb, case['mode'], norb, 0 if case['mode'] == 'sb' or norb % 2 == 0 else 1, None)
@@ -362,6 +379,9 @@ def compare(case, got, exp, mode):
             elif not got['unchanged']:
                 bad.append('PARTIAL-UPDATE set_wfn(from_data) raised %s for sector #%d but had already overwritten other sectors' % (got.get('raised'), case['bad']))
         return bad
+    if k == 'sets':
+        from props import c08
+        return c08.compare(case['inner'], got, {'raised': True}, mode)
     if k == 'label':
         inside = case['L'] < 2 * case['norb']
         what = '%s with a FermionOperator whose largest spin-orbital label is %d (norb = %d, %d terms)' % (
